@@ -1,30 +1,143 @@
 package main
 
 import (
+	"flag"
 	"fmt"
 	"os"
+	"regexp"
+	"sort"
+	"strings"
 	"time"
 
-	"golang.org/x/tools/go/packages"
 	"golang.org/x/tools/go/ssa"
-	"golang.org/x/tools/go/ssa/ssautil"
 )
 
+func usage() {
+	fmt.Fprintln(os.Stderr, `usage:
+  govc fn [-t sec] [-dump] <funcKey-regexp>     build and solve the obligations of matching functions
+  govc list <regexp>                            list function keys
+  govc check -p Cxx [-tier quick|thorough]      run the registered check of a property
+  govc relock [-p Cxx]                          recompute the lock file
+  govc replay <file>                            re-run a recorded replay`)
+	os.Exit(2)
+}
+
 func main() {
+	defer cleanupScratch()
+	if len(os.Args) < 2 {
+		usage()
+	}
+	switch os.Args[1] {
+	case "fn":
+		cmdFn(os.Args[2:])
+	case "list":
+		cmdList(os.Args[2:])
+	case "check":
+		os.Exit(cmdCheck(os.Args[2:]))
+	case "relock":
+		os.Exit(cmdRelock(os.Args[2:]))
+	case "replay":
+		os.Exit(cmdReplay(os.Args[2:]))
+	default:
+		usage()
+	}
+}
+
+func mustWorld() *World {
 	t0 := time.Now()
-	cfg := &packages.Config{Mode: packages.LoadAllSyntax, Dir: "/repo/tooling", BuildFlags: []string{"-tags=verif"}}
-	pkgs, err := packages.Load(cfg, "./...")
+	w, err := LoadWorld()
 	if err != nil {
-		fmt.Println(err)
+		fmt.Fprintln(os.Stderr, "govc: load:", err)
+		cleanupScratch()
 		os.Exit(2)
 	}
-	prog, spkgs := ssautil.AllPackages(pkgs, ssa.InstantiateGenerics)
-	prog.Build()
-	n := 0
-	for f := range ssautil.AllFunctions(prog) {
-		if f.Pkg != nil && len(f.Blocks) > 0 {
-			n++
+	if err := w.LoadContracts(); err != nil {
+		fmt.Fprintln(os.Stderr, "govc: contracts:", err)
+		cleanupScratch()
+		os.Exit(2)
+	}
+	w.ComputeMods()
+	w.ConcreteTypes()
+	if os.Getenv("GOVC_VERBOSE") != "" {
+		fmt.Fprintf(os.Stderr, "loaded in %v: %d functions, %d contracts (%d unbound)\n", time.Since(t0), len(w.AllFns), len(w.Contracts.ByKey), len(w.Contracts.Unbound))
+	}
+	return w
+}
+
+func cmdList(args []string) {
+	w := mustWorld()
+	re := regexp.MustCompile(strings.Join(args, " "))
+	var keys []string
+	for k, f := range w.Funcs {
+		if w.InModule(f) && re.MatchString(k) {
+			keys = append(keys, k)
 		}
 	}
-	fmt.Println(len(spkgs), n, time.Since(t0))
+	sort.Strings(keys)
+	for _, k := range keys {
+		fmt.Println(k)
+	}
+}
+
+func cmdFn(args []string) {
+	fs := flag.NewFlagSet("fn", flag.ExitOnError)
+	tsec := fs.Int("t", 10, "timeout per query (s)")
+	dump := fs.String("dump", "", "write queries whose id matches this regexp to ./dump/")
+	only := fs.String("only", "", "only obligations whose id matches")
+	showAll := fs.Bool("v", false, "print discharged obligations too")
+	fs.Parse(args)
+	w := mustWorld()
+	re := regexp.MustCompile(fs.Arg(0))
+	var fns []*ssa.Function
+	for k, f := range w.Funcs {
+		if w.InModule(f) && re.MatchString(k) && len(f.Blocks) > 0 {
+			fns = append(fns, f)
+		}
+	}
+	sort.Slice(fns, func(i, j int) bool { return FuncKey(fns[i]) < FuncKey(fns[j]) })
+	var all []*Obligation
+	for _, f := range fns {
+		v := NewFnVC(w, f)
+		if err := v.Build(); err != nil {
+			fmt.Printf("OUT-OF-SUBSET %s: %v\n", FuncKey(f), err)
+			continue
+		}
+		all = append(all, v.obls...)
+	}
+	if *only != "" {
+		r2 := regexp.MustCompile(*only)
+		var sel []*Obligation
+		for _, o := range all {
+			if r2.MatchString(o.ID) {
+				sel = append(sel, o)
+			}
+		}
+		all = sel
+	}
+	t0 := time.Now()
+	SolveAll(all, solveOpts{timeout: time.Duration(*tsec) * time.Second, getModel: true}, 16)
+	cnt := map[string]int{}
+	for _, o := range all {
+		ok := (o.Expect == "sat" && o.Status == "sat") || (o.Expect != "sat" && o.Status == "unsat")
+		if ok {
+			cnt["discharged"]++
+		} else {
+			cnt[o.Status]++
+		}
+		if !ok || *showAll {
+			fmt.Printf("%-8s %-7s %5dms %s  [%s]\n", o.Status, o.Solver, o.Ms, o.ID, o.Pos)
+			if o.Status == "error" {
+				fmt.Println("     ", o.Model)
+			}
+		}
+		if *dump != "" && regexp.MustCompile(*dump).MatchString(o.ID) {
+			os.MkdirAll("dump", 0o755)
+			name := regexp.MustCompile(`[^A-Za-z0-9_.-]+`).ReplaceAllString(o.ID, "_")
+			if len(name) > 150 {
+				name = name[:150]
+			}
+			os.WriteFile("dump/"+name+".smt2", []byte(o.Query(true)+"(get-model)\n"), 0o644)
+		}
+	}
+	fmt.Printf("%d obligations in %d functions: %v (%.1fs)\n", len(all), len(fns), cnt, time.Since(t0).Seconds())
 }
